@@ -53,6 +53,10 @@ Proof.
              lazymatch c with f114 => fail | f130 => fail | _ => idtac end;
              first [ replace c with f114 by (vm_compute; reflexivity) | replace c with f130 by (vm_compute; reflexivity) ]
          end.
+  lazymatch goal with
+  | |- context [decode _] => fail "a float literal of _find_sparse_enough_range is not the model's 1.14 / 1.3"
+  | _ => idtac
+  end.
   timeout 60 reflexivity.
 Qed.
 
